@@ -162,13 +162,13 @@ def main():
 
 
 PKG_PROPS = {
-    "recordio": ["C04", "C12", "C07", "C19", "C09", "C02", "C20", "C15", "C03", "C13", "C18"],
+    "recordio": ["C04", "C12", "C07", "C11", "C19", "C09", "C02", "C20", "C15", "C03", "C13", "C18"],
     "sstables": ["C03", "C08", "C09", "C15", "C11", "C19", "C18", "C06", "C01", "C02"],
     "simpledb": ["C01", "C17", "C02", "C05", "C06", "C10", "C11", "C13", "C19", "C18"],
     "memstore": ["C14", "C01", "C17", "C11"],
     "skiplist": ["C16", "C14", "C08", "C03", "C11"],
     "pq": ["C16", "C08", "C11", "C06"],
-    "wal": ["C07", "C02", "C13", "C10", "C19", "C17"],
+    "wal": ["C07", "C11", "C02", "C13", "C10", "C19", "C17"],
     "kaitai": ["C20"],
 }
 
